@@ -2,6 +2,7 @@
 
 from __future__ import annotations
 
+import html
 import re
 from collections import Counter
 
@@ -209,7 +210,8 @@ def check_one(h, cfg_desc):
         if i in clusters and clusters[i] != par:
             f.append(Fail("clusters", "nesting", f"cluster{i} inside {clusters[i]}, parent is {par}"))
         name = display_name(h[n].op, bool(cfg_desc.get("qualify")))
-        if f"<B>{name}</B>" not in label:
+        # names are text inside an HTML-like label: `<`, `>` and `&` are written as character references
+        if f"<B>{html.escape(name, quote=False)}</B>" not in label:
             f.append(Fail("nodes", "display-name", f"node {i}: {name!r} not in label"))
         ports = Counter((d, int(k)) for d, k in PORT.findall(label))
         want = Counter([("in", k) for k in range(h.num_in_ports(n))] + [("out", k) for k in range(h.num_out_ports(n))])
@@ -280,6 +282,67 @@ def check(case) -> list[Fail]:
     return f[:8]
 
 
+def check_store(case) -> list[Fail]:
+    """`Hugr.store_dot` writes the same DOT source as `render_dot` draws, and Graphviz itself (the `dot`
+    program, an independent reader of that source) accepts it and finds as many nodes and edges as the HUGR has
+    nodes and links.  Without a `dot` executable only the written source is compared."""
+    import os
+    import shutil
+    import tempfile
+
+    r, fails = run_program(case["prog"])
+    if r is None:
+        raise InvalidCase("program does not build")
+    h = r.hugr
+    f: list[Fail] = []
+    if len(case["prog"]["events"]) % 2:
+        # text that must be written as character references inside the HTML-like labels
+        h[h.root].metadata["k<&"] = "a<b & c>"
+    before = store.snapshot(h)
+    try:
+        want = h.render_dot(mk_config(case["cfg"])).source
+    except Exception as e:  # noqa: BLE001
+        return [exc_fail("render", e)]
+    d = tempfile.mkdtemp(prefix="c20-store-")
+    try:
+        path = os.path.join(d, "g")
+        have_dot = shutil.which("dot") is not None
+        try:
+            if have_dot:
+                h.store_dot(path, format="plain", config=mk_config(case["cfg"]))
+            else:
+                import graphviz
+
+                try:
+                    h.store_dot(path, format="plain", config=mk_config(case["cfg"]))
+                except graphviz.ExecutableNotFound:
+                    pass
+        except Exception as e:  # noqa: BLE001
+            return [exc_fail("store_dot", e)]
+        if store.snapshot(h) != before:
+            f.append(Fail("store_dot", "hugr-modified", ""))
+        if not os.path.exists(path):
+            return f + [Fail("store_dot", "source-file-missing", "")]
+        got = open(path, encoding="utf-8").read()
+        if got.rstrip("\n") != want.rstrip("\n"):
+            f.append(Fail("store_dot", "source-differs-from-render_dot", f"{len(got)} vs {len(want)} characters"))
+        if have_dot:
+            out = path + ".plain"
+            if not os.path.exists(out):
+                return f + [Fail("store_dot", "rendered-file-missing", "")]
+            lines = open(out, encoding="utf-8").read().splitlines()
+            n_nodes = sum(1 for ln in lines if ln.startswith("node "))
+            n_edges = sum(1 for ln in lines if ln.startswith("edge "))
+            n_links = sum(1 for _ in h.links())
+            if n_nodes != len(h):
+                f.append(Fail("store_dot", "graphviz-node-count", f"graphviz reads {n_nodes} nodes, the HUGR has {len(h)}"))
+            if n_edges != n_links:
+                f.append(Fail("store_dot", "graphviz-edge-count", f"graphviz reads {n_edges} edges, the HUGR has {n_links} links"))
+    finally:
+        shutil.rmtree(d, ignore_errors=True)
+    return f
+
+
 COL = st.sampled_from(["white", "black", "#112233", "#ACCBF9", "red"])
 CFG = st.fixed_dictionaries({"palette": st.one_of(st.sampled_from(["default", "nb", "zx"]), st.lists(COL, min_size=8, max_size=8)), "qualify": st.booleans()})
 
@@ -311,7 +374,14 @@ def call_strategy(tier):
     return st.fixed_dictionaries({"prog": proggen.programs(size=14 if tier == "quick" else 22, max_depth=1, roots=("module",), detached=False, call_bias=True), "cfg": CFG, "cfg2": CFG})
 
 
+def store_strategy(tier):
+    return st.fixed_dictionaries({"prog": proggen.programs(size=10 if tier == "quick" else 18, max_depth=2), "cfg": CFG})
+
+
 SUBS = [
+    # the file-writing entry point, read back by Graphviz itself
+    Sub("store-dot", check_store, strategy=store_strategy, nontrivial=nontrivial, classes=lambda c: [x for x in c["prog"].get("classes", []) if x in NT | CONT],
+        n_quick=50, n_thorough=300, sample_ok=lambda c: len(c["prog"]["events"]) <= 8),
     # module programs dominated by calls / function loads (static edges, order edges touching calls)
     Sub("render-calls", check, strategy=call_strategy, nontrivial=lambda c: "call" in c["prog"].get("classes", []), classes=lambda c: [x for x in c["prog"].get("classes", []) if x in ("call", "load-function", "explicit-order-edge")],
         n_quick=100, n_thorough=800, sample_ok=lambda c: len(c["prog"]["events"]) <= 8),
